@@ -92,11 +92,58 @@ def locf_cases(tier):
         for ks in itertools.combinations(keys, n):
             for vs in itertools.product([None, 1.0, 2.0], repeat=n):
                 out.append(inputs.mk(["p", "t", "v"], {"p": "str", "t": "int", "v": "float"}, [(p, tt, v) for (p, tt), v in zip(ks, vs)]))
+    # tied order keys inside a partition (C21-r4m1): kept only where every way of breaking the ties
+    # gives the same table, so the documented result is determined
+    tkeys = [("a", 1), ("a", 1), ("a", 2), ("a", 2), ("b", 1)]
+    seen = set()
+    for n in range(2, k + 1):
+        for idx in itertools.combinations(range(len(tkeys)), n):
+            ks = [tkeys[i] for i in idx]
+            if len(set(ks)) == len(ks):
+                continue
+            for vs in itertools.product([None, 1.0, 2.0], repeat=n):
+                rows = tuple((p, tt, v) for (p, tt), v in zip(ks, vs))
+                if rows in seen:
+                    continue
+                seen.add(rows)
+                t = inputs.mk(["p", "t", "v"], {"p": "str", "t": "int", "v": "float"}, list(rows))
+                if locf_tied_reference(t, True) is not None and locf_tied_reference(t, False) is not None:
+                    out.append(t)
     return out
+
+
+def _locf_sequence(rows_in_order):
+    out, last = [], None
+    for (p, tt, v) in rows_in_order:
+        if v is not None:
+            last = v
+        out.append((p, tt, last))
+    return out
+
+
+def locf_tied_reference(t, partitioned):
+    """carry-forward under every tie-breaking order; None if they disagree (result not determined)"""
+    rows = t["rows"]
+    groups = {}
+    for r in rows:
+        groups.setdefault(r[0] if partitioned else "", []).append(r)
+    out = []
+    for _, grp in sorted(groups.items()):
+        key = (lambda r: r[1]) if partitioned else (lambda r: (r[0], r[1]))
+        answers = set()
+        for perm in itertools.permutations(grp):
+            if all(key(perm[i]) <= key(perm[i + 1]) for i in range(len(perm) - 1)):
+                answers.add(tuple(sorted(_locf_sequence(perm), key=lambda r: (r[0], r[1], -1 if r[2] is None else r[2]))))
+        if len(answers) != 1:
+            return None
+        out.extend(answers.pop())
+    return ("ok", ["p", "t", "v"], out)
 
 
 def locf_reference(t, partitioned):
     rows = t["rows"]
+    if len({(r[0], r[1]) for r in rows}) != len(rows):
+        return locf_tied_reference(t, partitioned)
     out = []
     for (p, tt, v) in rows:
         if v is not None:
@@ -238,7 +285,7 @@ def run(tier):
     ]
     return run.finish(
         exhaustive=True,
-        rule=f"rank_to_average: all multisets of <= {4 if tier == 'quick' else 5} rows over 6 (partition, value) rows, partitioned and not; last_observed_carried_forward: all tables of <= {4 if tier == 'quick' else 5} rows over 5 distinct (partition, time) keys x values {{NULL,1,2}}, partitioned and not; replicate_rows_query: max_count 1..{16 if tier == 'quick' else 64} x every count; def_multi_column_map: all 81 mapping tables x {len(map_data_tables(tier))} keyed tables x coalesce / rename options; each on Pandas and SQLite",
+        rule=f"rank_to_average: all multisets of <= {4 if tier == 'quick' else 5} rows over 6 (partition, value) rows, partitioned and not; last_observed_carried_forward: all tables of <= {4 if tier == 'quick' else 5} rows over 5 distinct (partition, time) keys x values {{NULL,1,2}}, plus all such tables over keys with repeated (partition, time) pairs whose result is the same under every tie-breaking order, partitioned and not; replicate_rows_query: max_count 1..{16 if tier == 'quick' else 64} x every count; def_multi_column_map: all 81 mapping tables x {len(map_data_tables(tier))} keyed tables x coalesce / rename options; each on Pandas and SQLite",
     )
 
 
